@@ -1,6 +1,6 @@
 (* C01 driver.  Reads harness lines
      (c01 (id seed index uni "knobs") (sum (subgraphs n) (types n) (fetches n) (entityfetches n) ...)
-          (flags (planning b) (gwerrors b) (referrors b) (reqvalid b) (owned b) (reprs b) (goequal b) (orderonly b))
+          (flags (planning b) (gwerrors b) (referrors b) (reqvalid b) (owned b) (reprs b) (goequal b) (orderonly b) (panic b))
           (gw <json>|(absent)) (ref <json>) (detail "..") (replay "path") (op ".."))
    | (c01 (id ...) (laberror "msg"))
    gw  = the data member of the response the real ExecutionEngine wrote,
@@ -47,7 +47,9 @@ let handle (x : sexp) : (string * string) list =
     let tail = Printf.sprintf " detail=%s replay=%s" (quote_string detail) replay in
     let res = ref [] in
     let add st d = res := (st, d) :: !res in
-    if not (flag flags "planning") then add "specfail" ("planning_never_fails" ^ tail)
+    let panicked = (try flag flags "panic" with Sexp_error _ -> false) in
+    if panicked then add "specfail" ("no_panic" ^ tail)
+    else if not (flag flags "planning") then add "specfail" ("planning_never_fails" ^ tail)
     else begin
       let gw = match find "gw" items with [L [A "absent"]] -> JNull | [j] -> json_of j | _ -> raise (Sexp_error "gw") in
       let rf = match find "ref" items with [j] -> json_of j | _ -> raise (Sexp_error "ref") in
